@@ -68,7 +68,7 @@ func (c *Ctx) executeTable() []executeCell {
 					return symV("errStop"), true
 				}
 				return symV("otherErr"), true
-			case cc.StaticCallee() != nil && cc.StaticCallee().Name() == "newScanner":
+			case c.isFn(cc.StaticCallee(), "postscript", "", "newScanner"):
 				return sv{k: svAddr, s: "scanner"}, true
 			case cc.StaticCallee() == ia.e:
 				if len(cc.Args) > 1 {
